@@ -12,7 +12,7 @@ PROPS["C16"] = dict(
                              "op.createother", "op.rmdir", "op.badref", "op.alias", "op.baddigest", "op.pool", "op.expire", "fault.manifest",
                              "fault.blob", "result.lookup.ok", "result.lookup.served-from-tree", "result.lookup.fail.unknown",
                              "result.lookup.fail.fault", "result.rmdir.layerzero", "result.rmdir.imagezero", "result.relookup.ok"])],
-    rule="store: corpus of 9 hand-written histories + random histories (3..22 ops) of lookup(diff|blob) / info / use / release, the sub-steps of "
+    rule="store: corpus of 14 hand-written histories + random histories (3..22 ops) of lookup(diff|blob) / info / use / release, the sub-steps of "
          "getLayer (loadRef, one resolveLayer, getCachedLayer), expiry of the resolver's TTL caches, and a release scheduled (gate hook) between "
          "cacheLayer and the end of a concurrent resolveLayer; storefs: corpus of 5 + random histories (3..20 client operations) on the FUSE "
          "handlers through go-fuse's NodeFS bridge (path walk + stat diff|blob|info|use|other, creat use|other, rmdir, malformed ref and digest "
